@@ -22,6 +22,22 @@ CLAIMS: dict = {
         technique='contract-based deductive verification: AST->VC symbolic execution of the real query functions + '
                   'SQL->FOL translation, obligations discharged by z3',
         engines=['pyvc', 'sqlvc']),
+    'C05': dict(
+        category='proof',
+        text='Decomposition of the history property into per-operation obligations over the real DDL, SQL and '
+             'Python: ownership/cascade closure of wn/schema.sql (decision procedure on the schema as SQLite parses '
+             'it), PRAGMA foreign_keys on every pooled connection, remove() deleting the extension closure '
+             'deepest-first by rowid inside one transaction, every row stored by add() owned by the lexicon being '
+             'added (row images vs sidecar specification, z3), dependency re-linking (UPDATE ... WHERE equivalence), '
+             'the skip rule of _precheck, and an inductive z3 lemma that these contracts make the content a function '
+             'of the installed set after any finite history.',
+        note='Assumed: SQLite enforces declared FKs/ON DELETE actions when the pragma is on (A-SQLITE), A-TXN, '
+             'identifiers unique within a document (A-IDS), _batch/_collect_frames by contract (checked bounded in '
+             'C01), extension-closure queries (WITH RECURSIVE) by assumed contract. Known finding K13 (tags/'
+             'pronunciations attached by an extension to base forms survive its removal).',
+        technique='contract-based deductive verification: DDL decision procedure + row-image/effect-log obligations from '
+                  'AST-level symbolic execution + z3 invariant lemma',
+        engines=['pyvc', 'sqlvc']),
     'C06': dict(
         category='proof',
         text='Ghost transaction state over the effect log of the symbolically executed real add / '
